@@ -14,6 +14,15 @@ Refuting events (each with its own mechanism-level signature):
                   samples taken apart show the same innermost onnx_ir function below an identical
                   outer stack.  Anything else the watchdog sees is *inconclusive* (the shard fails).
                   signature ``hang:<phase>|<module.function>``
+  step budget     termination is decided on LOGICAL steps: ``sys.monitoring`` counts function entries, generator
+                  resumptions and loop back-edges executed by onnx_ir code objects during one ``from_proto`` /
+                  ``to_proto`` call; a call that spends more than 10^6 + 2000 events per byte of the message it was
+                  given (the unchanged tree stays below 1% of that on the whole workload; counters
+                  ``step_budget_used:*``) is stopped by an exception raised into it and is a witness of a call tree
+                  or loop that is not bounded by the size of the input (e.g. work doubling per nesting level).
+                  signature ``steps-exceeded:<phase>|<module.function>`` - the function that is on the stack most
+                  often (recursion) or that spent the events profiled after the budget ran out (loop).  The
+                  stack-sampling watchdog above remains for what the counter cannot see (time spent in C).
   crash           the child died on a signal while inside a library phase
                   signature ``crash:<phase>|<signal>|<module.function>``
   walker          the returned IR violates a clause of the C01 walker (``vfpy.invariants``) or the closure
@@ -96,13 +105,19 @@ RULE = (
     "a case is one valid proto (generated by gen_proto: ModelProto 46% / GraphProto / FunctionProto / NodeProto / "
     "TensorProto / AttributeProto / ValueInfoProto / TypeProto, IR version 3..13, features toggled independently, some "
     "forced; or - 8% - a model of the ONNX backend corpus) with canary tokens in every external-data location, "
-    "then 1-8 mutations (3% of the cases: none, as a control) drawn from 42 kinds (7% of the cases are instead a sequence "
+    "then 1-8 mutations (3% of the cases: none, as a control) drawn from 44 kinds (9% of the model/graph/function cases first get "
+    "the library's own naming scheme - values consistently renamed to val_<n>, nodes to node_<op>_<n>, in one or all containers - "
+    "and then, 3 times in 4, a definition (graph/function input, initializer, node output, node, graph) loses its name, so that any name "
+    "the library invents meets a declared one; 7% of the cases are instead a sequence "
     "of 2-5 from_proto calls in one process over differently mutated views of one base model, each step also judged alone "
     "in a pristine process): dangling/duplicated/empty names, "
     "missing types, shuffled/cyclic/self-consuming nodes, unknown enum integers, payload/type mismatches, invalid "
     "UTF-8, dims vs data, several storage fields, absurd external_data, redeclared outputs, initializers named like "
     "inputs/node outputs, subgraph names shadowing outer names (also consistently: definition and every reference renamed "
-    "to an enclosing scope's name, with a sharding annotation on the shadowed operand), deep nesting, recursive functions, reference "
+    "to an enclosing scope's name, with a sharding annotation on the shadowed operand), deep nesting (types wrapped 3..560 "
+    "sequence/optional/map levels in all-sequence, all-optional, alternating and random patterns, on value infos and type attributes; "
+    "graph attributes nested 3..300 levels, optionally typed at every level; small protos, many of them within protobuf's 100-level "
+    "parse limit), recursive functions, reference "
     "attributes outside functions, unknown device configurations, unsupported constructs, generic reflection "
     "edits, byte flips/insertions/deletions/duplications/appended fields of the serialised form that protobuf "
     "still parses.  non-trivial = >= 1 mutation applied (so the result was accepted by protobuf) and "
@@ -123,7 +138,11 @@ ASSUMPTIONS = [
     "file access is what CPython audit events (open, mmap, listdir, scandir, ...) and wrappers on os.stat/lstat/"
     "readlink/access/statvfs can see in-process; calls below the Python level are only visible to the strace observer "
     "(thorough tier); os.getcwd is report-only; reading nbytes is report-only (the statement lists name, dtype, shape, size)",
-    "a hang is diagnosed structurally: more than case_cpu_s CPU seconds in one case AND two stack samples with the same "
+    "'terminates' is judged on logical steps: interpreter events (PY_START, PY_RESUME, JUMP) of onnx_ir code objects during one "
+    "from_proto/to_proto call, against a budget linear in the byte size of the message (10^6 + 2000 per byte; two orders of magnitude "
+    "above what the unchanged tree needs anywhere in the workload); exceeding it is a violation whatever the wall clock says; work in C "
+    "below a call is not counted",
+    "a hang the step counter cannot see is diagnosed structurally: more than case_cpu_s CPU seconds in one case AND two stack samples with the same "
     "innermost onnx_ir function under an identical outer stack; a watchdog event without that diagnosis makes the "
     "shard (and the check) inconclusive",
     "RecursionError (default recursion limit while library code runs) counts as 'raises'",
@@ -149,6 +168,9 @@ FORCIBLE = ("external", "functions", "captures", "attr_graph", "attr_graphs", "i
 N_MUTATIONS = (1, 1, 1, 2, 2, 2, 3, 3, 4, 4, 5, 6, 7, 8)
 LIBRARY_PHASES = ("from_proto", "inspect", "to_proto", "reload", "inspect2", "reserialize")
 BATCH = 16
+STYLED_KINDS = ("ModelProto", "GraphProto", "FunctionProto")
+STYLED_FRACTION = 0.09
+NAME_LOSS = ("unname", "unname", "empty_name")
 CORPUS_MAX_BYTES = 40000
 MAX_DIFFS = 6
 MARK = "/__c17_mark__/"
@@ -177,6 +199,12 @@ def plan(tier: str) -> dict:
         "seq_steps_after_rejected": 30 if quick else 1200,
         "fs_observer_selfcheck_ok": 1,
         "watchdog_selfcheck_ok": 1,
+        "step_budget_selfcheck_ok": 16,
+        "step_budget_windows": 2500 if quick else 80000,
+        "library_named_cases": 80 if quick else 2000,
+        "library_named_cases_with_unnamed_definition": 45 if quick else 1200,
+        "deeply_nested_cases": 25 if quick else 800,
+        "deeply_nested_small_cases": 15 if quick else 450,
     }
     rare = ("exp_value_info", "dup_function", "recursive_function", "ir_version")
     for k in mp.KINDS:
@@ -333,6 +361,185 @@ def _install_progress() -> bool:
 
     mon.register_callback(_TOOL_ID, mon.events.PY_RETURN, on_return)
     return True
+
+
+# =====================================================================================================
+# step budget: "terminates" decided on logical steps (interpreter events inside onnx_ir), never on time
+# =====================================================================================================
+
+STEP_BASE = 1_000_000
+STEP_PER_BYTE = 2_000
+_STEP_TOOL = 3
+_STEP_SAMPLE = 20_000  # events profiled after the budget is exhausted, to name the function that spends them
+
+
+class StepBudgetExceeded(BaseException):
+    """Raised INTO the library call by the step counter (a BaseException: the library's own ``except Exception``
+    wrappers do not swallow it)."""
+
+
+class _Steps:
+    """Counts interpreter events - function entries (PY_START), generator resumptions (PY_RESUME) and taken
+    unconditional jumps (JUMP: every loop back-edge) - executed by code objects of the onnx_ir package, through
+    ``sys.monitoring`` local events.  Work done in C below one call (numpy, protobuf, dict/set operations) is not
+    counted.  One library call gets a budget that is linear in the size of the message handed to it; when the
+    budget is exhausted the next ``_STEP_SAMPLE`` events are attributed to their code objects and then
+    ``StepBudgetExceeded`` is raised into the call."""
+
+    def __init__(self) -> None:
+        self.n = [0]
+        self.limit = [1 << 62]
+        self.hard = [1 << 62]
+        self.hot: Counter = Counter()
+        self.ok = False
+        self.codes = 0
+        self._seen: set[int] = set()
+
+    def _package_codes(self, extra=()) -> list:
+        import gc
+        import types
+
+        root = os.path.dirname(os.path.abspath(ir.__file__)) + os.sep
+        out: dict[int, Any] = {}
+
+        def add(code) -> None:
+            if id(code) in out or not code.co_filename.startswith(root):
+                return
+            out[id(code)] = code
+            for k in code.co_consts:
+                if isinstance(k, types.CodeType):
+                    add(k)
+
+        for o in gc.get_objects():
+            if isinstance(o, types.FunctionType):
+                add(o.__code__)
+        return list(out.values()) + list(extra)
+
+    def install(self) -> bool:
+        mon = getattr(sys, "monitoring", None)
+        if mon is None:
+            return False
+        try:
+            mon.use_tool_id(_STEP_TOOL, "vf-c17-steps")
+        except ValueError:
+            if mon.get_tool(_STEP_TOOL) != "vf-c17-steps":
+                return False
+        n, limit, hard, hot = self.n, self.limit, self.hard, self.hot
+
+        def over(code) -> None:
+            hot[code] += 1
+            if n[0] > hard[0]:
+                limit[0] = hard[0] = 1 << 62
+                raise StepBudgetExceeded
+
+        def on_start(code, offset):  # noqa: ARG001
+            k = n[0] = n[0] + 1
+            if k > limit[0]:
+                over(code)
+
+        def on_jump(code, offset, dest):  # noqa: ARG001
+            k = n[0] = n[0] + 1
+            if k > limit[0]:
+                over(code)
+
+        ev = mon.events
+        mon.register_callback(_STEP_TOOL, ev.PY_START, on_start)
+        mon.register_callback(_STEP_TOOL, ev.PY_RESUME, on_start)
+        mon.register_callback(_STEP_TOOL, ev.JUMP, on_jump)
+        self.ok = True
+        self.refresh()
+        return True
+
+    def refresh(self, extra=()) -> None:
+        """(Re-)instrument every code object of the package that exists now (modules imported lazily since)."""
+        if not self.ok:
+            return
+        mon = sys.monitoring
+        ev = mon.events
+        for code in self._package_codes(extra):
+            if id(code) not in self._seen:
+                self._seen.add(id(code))
+                mon.set_local_events(_STEP_TOOL, code, ev.PY_START | ev.PY_RESUME | ev.JUMP)
+        self.codes = len(self._seen)
+
+    @contextlib.contextmanager
+    def budget(self, steps: int):
+        self.hot.clear()
+        self.n[0] = 0
+        self.limit[0] = steps
+        self.hard[0] = steps + _STEP_SAMPLE
+        try:
+            yield
+        finally:
+            self.limit[0] = self.hard[0] = 1 << 62
+
+    def used(self) -> int:
+        return self.n[0]
+
+
+STEPS = _Steps()
+
+
+def _code_site(code) -> str:
+    fn = code.co_filename.replace("\\", "/")
+    mod = fn.rsplit("/onnx_ir/", 1)[1].rsplit(".py", 1)[0].replace("/", ".") if "/onnx_ir/" in fn else os.path.basename(fn)
+    return f"{mod}.{getattr(code, 'co_qualname', code.co_name)}"
+
+
+def _budget_site(exc: BaseException) -> tuple[str, str]:
+    """-> (function that names the mechanism, explanation): the library function that is on the stack most often
+    when the budget runs out (a recursion), else the one that spent most of the profiled events (a hot loop)."""
+    on_stack: Counter = Counter()
+    order: list[str] = []
+    tb = exc.__traceback__
+    while tb is not None:
+        code = tb.tb_frame.f_code
+        if "/onnx_ir/" in code.co_filename.replace("\\", "/"):
+            site = _code_site(code)
+            on_stack[site] += 1
+            order.append(site)
+        tb = tb.tb_next
+    plain = {k: v for k, v in on_stack.items() if "<locals>" not in k} or dict(on_stack)
+    hot = Counter()
+    for code, k in STEPS.hot.items():
+        hot[_code_site(code)] += k
+    top = ", ".join(f"{k} x{v}" for k, v in hot.most_common(3))
+    if plain and max(plain.values()) >= 3:
+        best = max(plain.values())
+        site = next(sname for sname in reversed(order) if plain.get(sname) == best)
+        return site, f"{site} is on the stack {best} times (depth {len(order)} in onnx_ir); the last {_STEP_SAMPLE} events went to {top}"
+    hot_plain = Counter({k: v for k, v in hot.items() if "<locals>" not in k}) or hot
+    if hot_plain:
+        site = hot_plain.most_common(1)[0][0]
+        return site, f"the last {_STEP_SAMPLE} events went to {top}; stack: {' > '.join(order[-6:])}"
+    return (order[-1] if order else "?"), "no onnx_ir frame was profiled"
+
+
+def _proto_bytes(proto) -> int:
+    try:
+        return int(proto.ByteSize())
+    except Exception:  # noqa: BLE001 - protobuf refuses to size it; fall back on the number of messages
+        return 2 * sum(1 for _ in mp.walk(proto))
+
+
+def step_budget(nbytes: int) -> int:
+    return STEP_BASE + STEP_PER_BYTE * nbytes
+
+
+def _budget_event(phase: str, exc: BaseException, used: int, budget: int, nbytes: int, count) -> dict:
+    site, why = _budget_site(exc)
+    count("step_budget_exceeded", 1)
+    return {"cls": "steps-exceeded", "core": f"{phase}|{site}", "kinds": False,
+            "text": f"{phase} neither returned nor raised within {budget} interpreter events inside onnx_ir (function entries + "
+                    f"loop back-edges; budget = {STEP_BASE} + {STEP_PER_BYTE} per byte of the {nbytes}-byte message): {why}"}
+
+
+def _count_budget_use(phase: str, used: int, budget: int, count) -> None:
+    count("step_budget_windows", 1)
+    count(f"steps:{phase}", used)
+    frac = used / budget
+    count("step_budget_used:" + ("<=0.01%" if frac <= 1e-4 else "<=0.1%" if frac <= 1e-3 else "<=1%" if frac <= 1e-2
+                                   else "<=10%" if frac <= 0.1 else "<=100%"), 1)
 
 
 # =====================================================================================================
@@ -727,16 +934,29 @@ def judge(proto, kind: str, count=None, on_phase=None, tag: str = "", want_hash:
     on_phase("from_proto")
     _PROGRESS[0] = 0
     exc = None
+    over = None
     obj = None
+    nbytes = _proto_bytes(proto)
+    budget = step_budget(nbytes)
     with FS.window("from_proto", tag):
         try:
-            obj = _phase_from_proto(proto)
+            with STEPS.budget(budget):
+                obj = _phase_from_proto(proto)
+        except StepBudgetExceeded as e:
+            over = e
         except Exception as e:  # noqa: BLE001 - any exception type is "raises"
             exc = e
     progress = _PROGRESS[0]
     count("fs_windows", 1)
     count("serde_calls_returned", progress)
     events += _fs_events("from_proto", True, count)
+    if over is not None:
+        events.append(_budget_event("from_proto", over, STEPS.used(), budget, nbytes, count))
+        info["progressed"] = progress >= 1
+        info["outcome"] = "from_proto exhausted its step budget"
+        del over
+        return events, info
+    _count_budget_use("from_proto", STEPS.used(), budget, count)
     if exc is not None:
         key = _exc_key(exc)
         count("from_proto_raised", 1)
@@ -783,10 +1003,19 @@ def judge(proto, kind: str, count=None, on_phase=None, tag: str = "", want_hash:
     p1 = None
     with FS.window("to_proto", tag):
         try:
-            p1 = _phase_to_proto(obj)
+            with STEPS.budget(budget):
+                p1 = _phase_to_proto(obj)
+        except StepBudgetExceeded as e:
+            over = e
         except Exception as e:  # noqa: BLE001 - "serializing that IR either raises or ..."
             exc = e
     events += _fs_events("to_proto", False, count)
+    if over is not None:
+        events.append(_budget_event("to_proto", over, STEPS.used(), budget, nbytes, count))
+        info["outcome"] = "returned; to_proto exhausted its step budget"
+        del over
+        return events, info
+    _count_budget_use("to_proto", STEPS.used(), budget, count)
     if exc is not None:
         count("to_proto_raised", 1)
         count(f"to_proto_raised:{_exc_key(exc)}", 1)
@@ -808,13 +1037,24 @@ def judge(proto, kind: str, count=None, on_phase=None, tag: str = "", want_hash:
     on_phase("reload")
     exc = None
     obj2 = None
+    nbytes1 = max(nbytes, _proto_bytes(p1))
+    budget1 = step_budget(nbytes1)
     with FS.window("reload", tag):
         try:
-            obj2 = _phase_reload(p1)
+            with STEPS.budget(budget1):
+                obj2 = _phase_reload(p1)
+        except StepBudgetExceeded as e:
+            over = e
         except Exception as e:  # noqa: BLE001
             exc = e
     count("fs_windows", 1)
     events += _fs_events("reload", True, count)
+    if over is not None:
+        events.append(_budget_event("reload", over, STEPS.used(), budget1, nbytes1, count))
+        info["outcome"] = "returned; to_proto ok; reload exhausted its step budget"
+        del over
+        return events, info
+    _count_budget_use("reload", STEPS.used(), budget1, count)
     if exc is not None:
         count("reload_raised", 1)
         events.append({"cls": "reload-raises", "core": _exc_key(exc), "kinds": False,
@@ -844,9 +1084,18 @@ def judge(proto, kind: str, count=None, on_phase=None, tag: str = "", want_hash:
     exc = None
     p2 = None
     try:
-        p2 = _phase_reserialize(obj2)
+        with STEPS.budget(budget1):
+            p2 = _phase_reserialize(obj2)
+    except StepBudgetExceeded as e:
+        over = e
     except Exception as e:  # noqa: BLE001
         exc = e
+    if over is not None:
+        events.append(_budget_event("reserialize", over, STEPS.used(), budget1, nbytes1, count))
+        info["outcome"] = "round trip: reserialize exhausted its step budget"
+        del over
+        return events, info
+    _count_budget_use("reserialize", STEPS.used(), budget1, count)
     if exc is not None:
         count("reserialize_raised", 1)
         events.append({"cls": "reserialize-raises", "core": _exc_key(exc), "kinds": False,
@@ -946,7 +1195,18 @@ def derive_case(ctx, case: int, corpus: list[str]):
     proto.CopyFrom(base)
     rng_m = ctx.rng(case, "mut")
     n = 0 if rng_m.random() < 0.03 else rng_m.choice(N_MUTATIONS)
-    applied = mp.mutate(proto, rng_m, n) if n else []
+    applied = []
+    if n and kind in STYLED_KINDS and ctx.rng(case, "style").random() < STYLED_FRACTION:
+        # the proto is named the way the library names things itself (every model the library produced is); then,
+        # most of the time, a definition loses its name; then the ordinary mutations
+        rng_s = ctx.rng(case, "style-muts")
+        for name in ("autoname", *((rng_s.choice(NAME_LOSS),) if rng_s.random() < 0.75 else ())):
+            seed = rng_s.getrandbits(32)
+            what = mp.apply(proto, name, seed)
+            if what is not None:
+                applied.append([name, seed, what])
+        n = max(0, n - len(applied)) if rng_s.random() < 0.6 else rng_s.choice((0, 1))
+    applied += mp.mutate(proto, rng_m, n) if n else []
     return base, kind, origin, proto, applied
 
 
@@ -1062,6 +1322,15 @@ def run_case(ctx, spec: dict, rec, on_phase, corpus: list[str], state: dict) -> 
         rec.count("byte_level_cases")
     if not muts:
         rec.count("control_cases_unmutated")
+    if any(m[0] == "autoname" for m in muts):
+        rec.count("library_named_cases")
+        if any(m[0] in NAME_LOSS for m in muts):
+            rec.count("library_named_cases_with_unnamed_definition")
+    deep = mp.nesting_depth(proto)
+    if deep >= 40:
+        rec.count("deeply_nested_cases")  # 40 message levels = 20 type levels = 10 graph levels
+        if _proto_bytes(proto) <= 8000:
+            rec.count("deeply_nested_small_cases")
     rec.count("canary_locations", sum(1 for loc in mp.external_locations(proto) if mp.CANARY in loc))
 
     events, info = judge(proto, kind, rec.count, on_phase, tag=str(case))
@@ -1092,7 +1361,8 @@ def _report_events(base, base_bytes, kind, origin, case, muts, events, rec, on_p
             if fails([]):
                 small = []
             elif len(muts) > 1:
-                small = ddmin(muts, fails, max_tests=80)
+                # a probe that still exhausts the step budget costs the whole budget: fewer probes for that class
+                small = ddmin(muts, fails, max_tests=14 if ev["cls"] == "steps-exceeded" else 80)
         witness, small_whats = build(base, small)
         evs, _ = judge(witness, kind)
         text = next((e["text"] for e in evs if (e["cls"], e["core"]) == key), ev["text"])
@@ -1688,6 +1958,35 @@ def _selfcheck_watchdog(ctx) -> None:
         ctx.note(f"watchdog self-check failed: {site!r} {expl}")
 
 
+def _selfcheck_steps(ctx) -> None:
+    """The step counter must stop an exponential recursion and a spinning loop inside code that claims to live in
+    onnx_ir, name the function, and must leave a cheap call alone."""
+    if not STEPS.ok:
+        ctx.note("step counter unavailable: sys.monitoring missing or its tool id taken")
+        return
+    src = ("def fib(n):\n    return n if n < 2 else fib(n - 1) + fib(n - 2)\n\n"
+           "def spin(n):\n    x = 0\n    while True:\n        x += 1\n")
+    ns: dict = {}
+    exec(compile(src, "/selfcheck/onnx_ir/_fake.py", "exec"), ns)  # noqa: S102 - harness self-test only
+    STEPS.refresh(extra=[ns["fib"].__code__, ns["spin"].__code__])
+    seen = []
+    for name, arg in (("fib", 60), ("spin", 0)):
+        try:
+            with STEPS.budget(50_000):
+                ns[name](arg)
+            seen.append("returned")
+        except StepBudgetExceeded as e:
+            seen.append(_budget_site(e)[0])
+    with STEPS.budget(50_000):
+        ns["fib"](10)
+    cheap = STEPS.used()
+    if seen == ["_fake.fib", "_fake.spin"] and 100 <= cheap <= 1000:
+        ctx.count("step_budget_selfcheck_ok")
+    else:
+        ctx.note(f"step counter self-check failed: {seen} cheap={cheap}")
+    ctx.count("step_counter_code_objects", STEPS.codes if ctx.shard == 0 else 0)
+
+
 def _selfcheck_fs(ctx) -> None:
     with FS.window("selfcheck"):
         try:
@@ -1837,11 +2136,13 @@ def setup() -> None:
                 ir.to_proto(obj)
             except Exception:  # noqa: BLE001 - warm-up only
                 pass
+    STEPS.install()
 
 
 def run(ctx) -> None:
     setup()
     _selfcheck_fs(ctx)
+    _selfcheck_steps(ctx)
     if ctx.shard == 0:
         _selfcheck_watchdog(ctx)
     corpus = _corpus_paths()
